@@ -159,11 +159,20 @@ def _lane_main(lane, ticket_r, out_w, fn, make_arg, deadline):
             if index < 0:
                 break
             t0 = time.monotonic()
-            res = run_in_child(fn, make_arg(index))
+            try:
+                arg = make_arg(index)
+            except BaseException as exc:  # plan generation failed: harness error for this index, lane lives on
+                res = {"outcome": "harness", "error": f"make_arg: {type(exc).__name__}: {exc}",
+                       "traceback": traceback.format_exc()[-3000:]}
+            else:
+                res = run_in_child(fn, arg)
             res["index"] = index
             res["lane"] = lane
             res["wall_s"] = round(time.monotonic() - t0, 4)
             send_msg(out_w, res)
+    except BaseException:
+        traceback.print_exc()
+        sys.stderr.flush()
     finally:
         os._exit(0)
 
